@@ -108,6 +108,29 @@ CHECKS["C14"] = {
     "technique": "static analysis: closed-form twin comparison with the documented geometry, 4-hop name-flow, structural reduction/wrapper rules",
 }
 
+CHECKS["C04"] = {
+    "level": "other",
+    "text": ("Decides reset completeness (every attribute mutated while an utterance is processed is fully re-initialised on "
+             "every normal path of finalize or by the not-started prefix of the next compute_chunk before being read; one reasoned "
+             "exemption), the started typestate on all exits, guard-first refusal in compute_full / frame_by_frame_calculation, "
+             "and by a flow-sensitive alias/effect analysis with callee summaries that no entry point writes through an alias of "
+             "its input array. Histories are not enumerated; bit-identity of features across histories is NOT decided."),
+    "design_ref": "DESIGN.md §3 C04",
+    "note": NOTE_COMMON + "Exemption: contents of STFT._buf (only read through slices bounded by the reset fill count).",
+    "technique": "static analysis: must-reinitialise data flow through self.* calls, typestate on exits, alias/effect analysis with summaries",
+}
+CHECKS["C20"] = {
+    "level": "other",
+    "text": ("Decides the None-default discipline package-wide (check-then-use contradiction), the copy-flag effect rule and the "
+             "phase-ramp closed form of circshift_fourier, the four window closed forms against NumPy's generators and their DC "
+             "coefficients (fresh, un-memoised arrays), the gamma window's special cases / mode / normaliser, the ten Odeh-Evans "
+             "coefficients, tail threshold, folding, sign and affinity, and the Hz<->rad inverse pair as rational functions. Does "
+             "NOT decide non-negativity, sums up to O(1/width), the 1e-6 accuracy or DFT shift identities numerically."),
+    "design_ref": "DESIGN.md §3 C20",
+    "note": NOTE_COMMON + "vis.py is outside the None-default rule (its guards are correlated across parameters; no property anchors it).",
+    "technique": "static analysis: None-default data flow, effect analysis with the copy flag, closed-form and literal-table comparison, purity rule",
+}
+
 _PENDING = "check not built yet in this session (static-analysis clauses planned in DESIGN.md §3)"
 NOT_APPLICABLE = {("C%02d" % i): _PENDING for i in range(1, 21) if ("C%02d" % i) not in CHECKS}
 
